@@ -44,14 +44,14 @@ def time_split_mux(time_mapper,
                         i.store.set_state(state_last, i.key, new_timestamp)
                         observer.on_next(rs.OnCompletedMux((i.key[0], i.key), i.store))
                         observer.on_next(rs.OnCreateMux((i.key[0], i.key), i.store))
-                    elif closing_mapper is not None and closing_mapper(i.item) is True:
+                    elif closing_mapper is not None and closing_mapper(i.item):
                         i.store.set_state(state_start, i.key, new_timestamp)
                         i.store.set_state(state_last, i.key, new_timestamp)
-                        if include_closing_item is True:
+                        if include_closing_item:
                             observer.on_next(i._replace(key=(i.key[0], i.key)))
                         observer.on_next(rs.OnCompletedMux((i.key[0], i.key), i.store))
                         observer.on_next(rs.OnCreateMux((i.key[0], i.key), i.store))
-                        if include_closing_item is True:
+                        if include_closing_item:
                             return
                     else:
                         i.store.set_state(state_last, i.key, new_timestamp)
